@@ -301,6 +301,7 @@ func (t *c15Pre) String() string {
 
 // a declaration the generator put into a body
 type c15Decl struct {
+	start int    // offset of the '<' of the tag
 	end   int    // offset just after the closing '>' of the tag
 	label string // declared label
 	real  bool   // false: decoy that must NOT be noticed (comment, missing pragma, …)
@@ -410,9 +411,10 @@ func c15MakeBody(r *rand.Rand, cs c15cs, site string, n int, declAt int) c15Body
 		other = "koi8-r"
 	}
 	add := func(tag string, label string, real bool) {
+		start := out.Len()
 		out.WriteString(encode(tag))
 		if !u16 {
-			b.decls = append(b.decls, c15Decl{end: out.Len(), label: label, real: real})
+			b.decls = append(b.decls, c15Decl{start: start, end: out.Len(), label: label, real: real})
 		}
 	}
 	switch site {
@@ -589,6 +591,24 @@ func c15MediaParse(ct string) (mp string, charset string, has bool, parseErr boo
 		return "nocs", "", false, false
 	}
 	return "cs:" + verifh.Hex(cs), cs, true, false
+}
+
+// c15Counter: histogram buckets with a "must be reached" check (a lane must not pass vacuously).
+type c15Counter struct {
+	s *verifh.Session
+	n map[string]int
+}
+
+func c15NewCounter(s *verifh.Session) *c15Counter { return &c15Counter{s, map[string]int{}} }
+
+func (c *c15Counter) count(k string) { c.s.Count(k); c.n[k]++ }
+
+func (c *c15Counter) must(t interface{ Errorf(string, ...any) }, buckets ...string) {
+	for _, b := range buckets {
+		if c.n[b] == 0 {
+			t.Errorf("generator never reached bucket %q", b)
+		}
+	}
 }
 
 func c15IsPrefixOfAny(out string, set []string) bool {
